@@ -177,7 +177,7 @@ def _init(T):
     _T = T
 
 
-def check(run):
+def _check_main(run):
     global _T
     T = pengine.load()
     _T = T
@@ -328,3 +328,10 @@ def check(run):
         kmax, len(fr), run.states, run.extra['window_assignments_covered'], sum(a['clean'] for a in agg.values())) if not groups and not silent else
         'all other paths: siblings survive, >=1 error, errors inside the malformed member (%d paths, %d violating boxes reported separately)' % (run.states, total_viol),
         'P', solver_s=tz, queries=nq + run.states, bound='k<=%d' % kmax)
+
+
+
+def check(run):
+    _check_main(run)
+    import mirror
+    mirror.silent_recovery_obligation(run)
